@@ -862,6 +862,10 @@ class H2Stream:
 
         events = self.state_machine.process_input(input_)
 
+        # This has to be checked before the block is encoded, too.
+        if self.state_machine.trailers_sent and not end_stream:
+            raise ProtocolError("Trailers must have END_STREAM set.")
+
         hf = HeadersFrame(self.stream_id)
         hdr_validation_flags = self._build_hdr_validation_flags(events)
         frames = self._build_headers_frames(
@@ -873,9 +877,6 @@ class H2Stream:
             # frame, not the CONTINUATION frames that follow.
             self.state_machine.process_input(StreamInputs.SEND_END_STREAM)
             frames[0].flags.add('END_STREAM')
-
-        if self.state_machine.trailers_sent and not end_stream:
-            raise ProtocolError("Trailers must have END_STREAM set.")
 
         if self.state_machine.client and self._authority is None:
             self._authority = authority_from_headers(headers)
@@ -1261,6 +1262,11 @@ class H2Stream:
             headers = validate_outbound_headers(
                 headers, hdr_validation_flags
             )
+
+        # Normalisation and validation are lazy generators. Run them to
+        # completion before anything is encoded: a list that is refused half
+        # way through must not have touched the compression context.
+        headers = list(headers)
 
         encoded_headers = encoder.encode(headers)
 
